@@ -164,17 +164,19 @@ pub fn run(ctx: &mut Ctx) {
     }
     // an archive with full attributes that was then modified in place (one file added through MutableArchive): the files
     // that were not touched still verify, and altering their stored bytes is still detected
-    for ver in [FormatVersion::V1, FormatVersion::V3] {
+    for (ver, replace) in [(FormatVersion::V1, false), (FormatVersion::V3, false), (FormatVersion::V1, true), (FormatVersion::V2, true), (FormatVersion::V4, true)] {
         let mut rng = ctx.rng.clone();
         let Some(w) = build(Kind::Attributes, ver, &mut rng, dir.path()) else { continue };
         ctx.rng = rng;
         let p = dir.path().join("mod.mpq");
         std::fs::write(&p, &w.bytes).ok();
         let added: Vec<u8> = text(900, 9);
-        let okm = (|| -> Result<(), String> { let mut m = wow_mpq::MutableArchive::open(&p).map_err(|e| e.to_string())?; m.add_file_data(&added, "added.txt", wow_mpq::AddFileOptions::new()).map_err(|e| e.to_string())?; m.flush().map_err(|e| e.to_string())?; Ok(()) })();
+        // either a new name, or the new content of a name the archive already holds (the replaced file must verify as well)
+        let target: String = if replace { w.files.keys().find(|k| !k.starts_with('(')).cloned().unwrap_or_else(|| "added.txt".into()) } else { "added.txt".into() };
+        let okm = (|| -> Result<(), String> { let mut m = wow_mpq::MutableArchive::open(&p).map_err(|e| e.to_string())?; m.add_file_data(&added, &target, wow_mpq::AddFileOptions::new().replace_existing(replace)).map_err(|e| e.to_string())?; m.flush().map_err(|e| e.to_string())?; Ok(()) })();
         if let Err(e) = okm { ctx.out.known("modification-of-attributes-archive-fails", &format!("{ver:?}: {e}")); continue; }
-        let mut w2 = World { bytes: std::fs::read(&p).unwrap_or_default(), files: w.files.clone(), kind: Kind::Attributes, regions: w.regions.clone(), desc: format!("Attributes {ver:?} after in-place add"), sig_pos: 0 };
-        w2.files.insert("added.txt".into(), added.clone());
+        let mut w2 = World { bytes: std::fs::read(&p).unwrap_or_default(), files: w.files.clone(), kind: Kind::Attributes, regions: w.regions.clone(), desc: format!("Attributes {ver:?} after in-place {}", if replace { "replace" } else { "add" }), sig_pos: 0 };
+        w2.files.insert(target.clone(), added.clone());
 
         match std::panic::catch_unwind(|| observe(&w2, &p, None)) {
             Ok(Ok(wrong)) if wrong.is_empty() => { ctx.out.oracle(true, "", ""); ctx.out.stat("c10.intact_verifies.after_modification"); }
@@ -183,7 +185,7 @@ pub fn run(ctx: &mut Ctx) {
             Err(_) => { ctx.out.oracle(false, "verification-panics", &format!("{} intact", w2.desc)); continue; }
         }
         // alter stored bytes of untouched files (their positions did not move: modification appends)
-        for (lo, hi, what) in w.regions.iter().filter(|r| r.2 != "(attributes)" && r.1 > r.0) {
+        for (lo, hi, what) in w.regions.iter().filter(|r| r.2 != "(attributes)" && r.1 > r.0 && !(replace && r.2 == target)) {
             for off in [*lo, (*lo + *hi) / 2, *hi - 1] {
                 let mut b = w2.bytes.clone(); if off >= b.len() { continue; } b[off] ^= 0x21;
                 std::fs::write(&p, &b).ok();
